@@ -183,8 +183,34 @@ def gen(rng):
     return case
 
 
+def gen_link(rng):
+    """round 7: a value link whose SENDING input is hinted but has its strictness off while the RECEIVING input (of the
+    other node) is hinted and strict; an ill-typed value is delivered to the sender (assignment, run keyword, or fetch
+    from an upstream output): the receiver's own check has to refuse it -- what the sender's hint promises says nothing
+    about a value the sender never validated"""
+    case = gen(rng)
+    case["typed"] = [True, True]
+    n = rng.randrange(2)
+    snd = rng.choice([3, 4] if n == 0 else [5, 6])
+    rcv = rng.choice([5, 6] if n == 0 else [3, 4])
+    bad = ["bad", rng.choice([1, 2, 3, 12])]
+    pre = [["link", snd, rcv], ["strict", snd, False]]
+    r = rng.random()
+    if r < 0.4:
+        pre.append(["assign", snd, bad])
+    elif r < 0.7:
+        pre.append(["run", n, [[snd, bad]]])
+    else:
+        case["u1_typed"] = False
+        pre += [["setout", 1, bad], ["connect", snd, 1], rng.choice([["fetch", n], ["run", n, []]])]
+    if rng.random() < 0.5:
+        pre.append(["run", 1 - n, []])
+    case["ops"] = pre + case["ops"][: rng.randint(0, 10)]
+    return case
+
+
 def generate(ctx):
-    return [gen(ctx.rng) for _ in range(ctx.n(700, 8000))]
+    return [gen(ctx.rng) for _ in range(ctx.n(700, 8000))] + [gen_link(ctx.rng) for _ in range(ctx.n(120, 1200))]
 
 
 def corpus(ctx):
